@@ -382,9 +382,10 @@ func init() {
 // joinSpTerm: Join(x, " ") of a []string slice value as an uninterpreted
 // function of (backing array, offset, length), with its defining unfolding
 // supplied for `depth` leading elements (no quantifier reaches the solver):
-//   joinSp(x) = ""                          if len(x) == 0
-//   joinSp(x) = x[0]                        if len(x) == 1
-//   joinSp(x) = x[0] ++ " " ++ joinSp(x[1:]) otherwise
+//
+//	joinSp(x) = ""                          if len(x) == 0
+//	joinSp(x) = x[0]                        if len(x) == 1
+//	joinSp(x) = x[0] ++ " " ++ joinSp(x[1:]) otherwise
 func (x *Exec) joinSpTerm(s *State, sv *SliceV, depth int) *Term {
 	return x.joinSepTerm(s, sv, " ", depth)
 }
